@@ -164,11 +164,76 @@ def h_mixture(ctx, skel, distr):
     choice("pad_")
 
 
+def h_mixture_cached(ctx, skel, distr):
+    """get_mixture_prior_params on the skeleton's OWN coordinates (so that its cache of small
+    mixtures hits exactly when it would on a real input) with symbolic per-(T,k) coalescent
+    priors and func_approx an uninterpreted function of (mean, variance): every node's
+    parameters are func_approx of ITS OWN span-weighted mixture."""
+    from symx import load
+    from symx.dom import sym, Q, qeq
+    from symx.uf import uf
+    prior = load.tsdate_module("prior")
+    ntc = load.tsdate_module("node_time_class")
+    ts = SK.all_named()[skel]()
+    # span tables from the unpatched module: real float64 record arrays, so that
+    # `span_arr.tobytes()` (the cache key) means what it means on a real input
+    try:
+        sbs = prior.SpansBySamples(ts)
+    except Exception as e:
+        ctx.fail("no-exception", detail={"exception": repr(e)[:300]})
+        return
+    with load.patched(prior, ntc) as npx:
+        cct = prior.ConditionalCoalescentTimes(None, distr)
+        Ts = sorted({int(T) for u in sbs.nodes_to_date for T in sbs.get_spans(u)})
+        M, V = {}, {}
+        for T in Ts:
+            tab = npx.full((T + 1, 4), math.nan)
+            for k in range(2, T + 1):
+                M[(T, k)], V[(T, k)] = sym(f"m{T}_{k}", "pos"), sym(f"v{T}_{k}", "pos")
+                tab[k, 0], tab[k, 1] = sym(f"A{T}_{k}"), sym(f"B{T}_{k}")
+                tab[k, 2], tab[k, 3] = M[(T, k)], V[(T, k)]
+            cct.prior_store[T] = tab
+        cct.func_approx = lambda mean, var: (uf("approx_a", (mean, var)), uf("approx_b", (mean, var)))
+        try:
+            pars = cct.get_mixture_prior_params(sbs)
+        except Exception as e:
+            ctx.fail("no-exception:mixture", detail={"exception": repr(e)[:300]})
+            return
+    samples = [int(s_) for s_ in ts.samples()]
+    want = {}
+    for t in ts.trees(tracked_samples=samples):
+        T = sum(1 for s_ in samples if t.parent(s_) != -1)
+        for u in t.nodes():
+            if u in samples or t.num_tracked_samples(u) == 0:
+                continue
+            key = (T, t.num_tracked_samples(u))
+            want.setdefault(u, {})
+            want[u][key] = want[u].get(key, 0.0) + t.span
+    for u, tab in want.items():
+        if len(tab) == 1:
+            (T, k), = tab.keys()
+            ctx.prove(f"cached:node[{u}]:single_component_uses_table_row",
+                      qeq(pars[u, 0], cct.prior_store[T][k, 0]) and qeq(pars[u, 1], cct.prior_store[T][k, 1]))
+            continue
+        W = sum(tab.values())
+        mean = sum((Q.of(w) * M[key] for key, w in tab.items()), Q.of(0)) / Q.of(W)
+        var = sum((Q.of(w) * (V[key] + M[key] * M[key]) for key, w in tab.items()), Q.of(0)) / Q.of(W) \
+            - mean * mean
+        ctx.prove(f"cached:node[{u}]:parameters_of_its_own_mixture",
+                  (Q.of(pars[u, 0]) == uf("approx_a", (mean, var))) & (Q.of(pars[u, 1]) == uf("approx_b", (mean, var))))
+    ctx.tag("cached")
+    from symx.dom import choice
+    choice("pad_")
+
+
 def cases(tier):
     cs = [Case(f"spans:{sk}", h_spans, dict(skel=sk)) for sk in SKELS]
     for sk in ("two_tree", "two_parents", "disjoint_node", "missing_sample", "cat3"):
         for d in ("lognorm", "gamma"):
             cs.append(Case(f"mixture:{sk}:{d}", h_mixture, dict(skel=sk, distr=d)))
+    for sk in ("missing_twins", "two_tree", "missing_sample", "three_pieces"):
+        for d in ("lognorm", "gamma"):
+            cs.append(Case(f"cached:{sk}:{d}", h_mixture_cached, dict(skel=sk, distr=d)))
     return cs
 
 
@@ -194,7 +259,7 @@ def run(tier, seed, t0):
         assumptions=["inputs without unary nodes, one root per tree (as the property states)"],
         out_of_scope=["the unary-node second/third pass", "tskit's tree iterator"],
         validated=npx.validate(),
-        expect_tags=["spans", "mixture", "single"],
+        expect_tags=["spans", "mixture", "single", "cached"],
     )
 
 
@@ -220,7 +285,7 @@ def replay(payload):
                for k, v in zip(arr["descendant_tips"], arr["span"])}
         if set(got) != set(tab) or any(abs(got[k] - v) > 1e-9 for k, v in tab.items()):
             bad.append((u, got, tab))
-    if payload["case"].startswith("mixture"):
+    if payload["case"].startswith(("mixture", "cached")):
         cct = prior.ConditionalCoalescentTimes(None, kw["distr"])
         for T in {T for tab in want.values() for T, _ in tab}:
             cct.add(T)
